@@ -168,3 +168,17 @@ Theorem C07_source_build_pre_encoded_url : forall (O : oracles) (B : backend) (a
      end).
 Proof. exact build_encoded_via_gen. Qed.
 Print Assumptions C07_source_build_pre_encoded_url.
+
+(** ... and URL.build itself: the keyword validation in source order (authority mixed with parts,
+    the port's type and range, port without host, query with query_string, NoneType arguments), the
+    hand-over to build_pre_encoded_url when encoded=True, and otherwise the scheme lowered, the
+    authority split or the host encoded with validation, the default port of the scheme dropped, the
+    userinfo through make_netloc(encode=True), the path quoted and - under an authority - cleared of
+    dot segments and required to start with "/", query string and fragment quoted: re-read from the
+    working tree on every run and proved to give, on every record of arguments, the model's outcome
+    (the same exception type, or the same five stored strings and an empty cache). *)
+From Yarl Require Import Model.GenQTypes Proofs.GenBuildProofs.
+Theorem C07_source_build : forall (O : oracles) (B : backend) (a : build_args),
+  same_outcome (gen_build O B a) (build O B a).
+Proof. exact gen_build_ok. Qed.
+Print Assumptions C07_source_build.
